@@ -70,7 +70,7 @@ func (n *DLQHandlerNode) ID() string {
 
 // Run runs the DLQ handler node until all components depending on this node
 // call Done. Dependents can be added or removed while the node is running.
-func (n *DLQHandlerNode) Run(ctx context.Context) error {
+func (n *DLQHandlerNode) Run(ctx context.Context) (err error) {
 	defer n.state.Set(nodeStateStopped)
 	n.window = newDLQWindow(n.WindowSize, n.WindowNackThreshold)
 
@@ -80,7 +80,7 @@ func (n *DLQHandlerNode) Run(ctx context.Context) error {
 	handlerCtx, handlerCtxCancel := n.stopper.start()
 	defer handlerCtxCancel()
 
-	err := n.Handler.Open(handlerCtx)
+	err = n.Handler.Open(handlerCtx)
 	if err != nil {
 		return cerrors.Errorf("could not open DLQ handler: %w", err)
 	}
